@@ -89,17 +89,18 @@ func (iq *IQ) UnmarshalXML(d *xml.Decoder, start xml.StartElement) error {
 	iq.XMLName = start.Name
 
 	// Extract IQ attributes
+	// The addressing attributes are the unqualified ones: x:to, xmlns:from and the like are something else
 	for _, attr := range start.Attr {
-		if attr.Name.Local == "id" {
+		if attr.Name.Space == "" && attr.Name.Local == "id" {
 			iq.Id = attr.Value
 		}
-		if attr.Name.Local == "type" {
+		if attr.Name.Space == "" && attr.Name.Local == "type" {
 			iq.Type = StanzaType(attr.Value)
 		}
-		if attr.Name.Local == "to" {
+		if attr.Name.Space == "" && attr.Name.Local == "to" {
 			iq.To = attr.Value
 		}
-		if attr.Name.Local == "from" {
+		if attr.Name.Space == "" && attr.Name.Local == "from" {
 			iq.From = attr.Value
 		}
 	}
